@@ -70,15 +70,15 @@ def check(case, p, o, want):
     if uniform and any(real[i] > real[i + 1] for i in range(k - 1)):
         probs.append(("sums-not-in-non-decreasing-order", {"sums": sut.jsonable(real)}))
     ns = [Fraction(real[i], w[i]) for i in range(k)]       # the i-th bin is the one whose sum was divided by the i-th weight
-    if not oracles.check_constraint(opts.get("constraint"), sorted(ns)):
-        probs.append(("additional-constraint-violated", {"constraint": opts.get("constraint"), "weighted_sums": [str(x) for x in ns]}))
+    if not oracles.check_constraint(opts.get("constraint"), list(real)):
+        probs.append(("additional-constraint-violated", {"constraint": opts.get("constraint"), "sums": sut.jsonable(real), "weights": w}))
     got = oracles.to_minimize(spec, ns)
     if got != want:
         probs.append(("not-optimal-among-feasible" if got > want else "better-than-the-oracle-optimum",
                       {"objective": spec, "weighted_sums_by_bin_index": [str(x) for x in ns], "sums": sut.jsonable(real), "weights": w,
                        "value": str(got), "optimum": str(want)}))
-    if uniform and opts.get("constraint") is None and weights_of(case) is not None:
-        plain = oracles.opt_ilp(values, cp, k, None, None, spec)
+    if uniform and weights_of(case) is not None:
+        plain = oracles.opt_ilp(values, cp, k, None, opts.get("constraint"), spec)       # equal weights never change the result
         if oracles.to_minimize(spec, real) != plain:
             probs.append(("equal-weights-changed-the-result", {"sums": sut.jsonable(real), "weights": w, "plain_optimum": str(plain)}))
     return probs
